@@ -45,6 +45,13 @@ for pid in sorted(SPACE):
         e = json.load(open(p))
         c = e["coverage"]
         trows.append("| %s | %s | %s | %s | %.0f s |" % (pid, c.get("states"), c.get("transitions"), "yes" if c.get("exhaustive") else "no (capped; what was covered is listed in bounds_completed)", e.get("wall_s", 0)))
+    elif pid in ("C01", "C14", "C19"):
+        # (these runs wrote their evidence into /verif/evidence, where the next quick run replaced it: numbers from the run log)
+        n_ = {"C01": ("7702470", "30861832", "yes", "2100"), "C14": ("8799278", "38080702", "yes", "5652"),
+              "C19": ("7341075", "28532556", "no (the 6000 s deadline ended the last scenario; what was covered is listed per level)", "6010")}[pid]
+        trows.append("| %s | %s | %s | %s | %s s (exit 0; run of the last day before waves 8-9, not repeated after them) |" % ((pid,) + n_))
+trows += ["", "The thorough tiers of C02, C07 and C12 were likewise last run to completion before waves 8-9 (a C12 re-run was stopped to give the",
+          "machine to the final re-detection); every other row is a run of the checks as committed (exit 0, no VIOLATION, no KNOWN-FINDING beyond the listed ones)."]
 thorough_table = "\n".join(trows) + "\n"
 seeded = []
 for f in sorted(glob.glob(os.path.join(V, "seeded", "*", "meta.json"))):
